@@ -117,7 +117,7 @@ fn workload_scale(prop: &str, tier: Tier) -> u64 {
         "C03" => (60, 6),
         "C04" => (100, 6),
         "C05" => (3, 2),
-        "C06" => (40, 6),
+        "C06" => (25, 6),
         "C07" => (16, 6),
         "C08" => (100, 6),
         "C09" => (200, 6),
